@@ -109,7 +109,7 @@ impl Monitor for C06 {
             }
         }
         // depth 2 over a sub-pool
-        let sub: Vec<i64> = vec![0, 1, -1, 2, 3, 63, 64, 2147483648, 3037000500, 4611686018427387904, i64::MAX, i64::MIN];
+        let sub: Vec<i64> = vec![0, 1, -1, 2, 3, 63, 64, 2147483648, 3037000500, 4294967291, 4611686018427387904, i64::MAX, i64::MIN];
         let ops2 = ["+", "-", "*", "/", "%", "^", "<<", ">>", "&", "|"];
         for a in &sub {
             for b in &sub {
@@ -138,6 +138,13 @@ impl Monitor for C06 {
                     _ => (format!("{}{}{}", i64_expr(a), op, i64_expr(b)), 0),
                 };
                 ctx.check(&Case::new(ev, "boundary", &s, Val::I(ph)), &|c, st| self.judge(c, st));
+            }
+        }
+        // the two-argument grid of small indices against powers of 10, 2, 3 and, with it, powers and products
+        // under a remainder for moduli around 2^31..2^32 (gen::int_grid)
+        for (i, s) in int_grid(ev).into_iter().enumerate() {
+            if i % ctx.tier.pick(4, 1) == 0 && ctx.mine() {
+                ctx.check(&Case::new(ev, "grid", &s, Val::I(0)), &|c, st| self.judge(c, st));
             }
         }
         // three operations sharing an operand, and the shape family (gen::repeated_operand_family, shape_family)
